@@ -270,7 +270,7 @@ R.contract(M + "FileAnonymizer.anonymize_io",
            # a file that cannot be read fails before anything is written or recorded (fault isolation, C16)
            raises={"UnicodeDecodeError": None},
            raises_ensures=["seq(out_io.written) == seq(old(out_io.written))", "ncalls('replace_matching_item') == 0"],
-           ensures=[WF4, WF6,
+           ensures=[WF4, WF6, ASOK, WOK,
                     # exactly one output line per input line
                     "len(seq(out_io.written)) == len(seq(old(out_io.written))) + len(seq(in_io.lines))"],
            loops={0: LoopContract(["line"], index="_i0",
@@ -280,3 +280,87 @@ R.contract(M + "FileAnonymizer.anonymize_io",
                                   invariant=[WF4, WF6, ASOK, WOK,
                                              "len(seq(out_io.written)) == len(seq(old(out_io.written))) + _i0",
                                              "PipelineOK(self, 'line')"])})
+
+
+# ---------------------------------------------------------------- anonymize_files (C16): directory run
+def _sp_file_iteration_ok(eng, args, kw, n):
+    """FileIterationOK('in_path', 'out_path'): ghost trace check of one iteration of the per-file loop -
+    the only file opened for reading is in_path, the only one opened for writing is out_path, directories are
+    created only for the parent of out_path, and the stream function is entered at most once."""
+    calls = list(eng.st.calls)
+    if not calls:
+        return Conc(True)
+    inp, outp = eng.st.vars[args[0].v], eng.st.vars[args[1].v]
+    opens = [e for k, e in calls if k == "open"]
+    for e in opens:
+        mode = e["mode"].v if isinstance(e["mode"], Conc) else None
+        if mode == "r":
+            if not _same(eng, e["path"], inp):
+                return Conc(False)
+        elif mode == "w":
+            if not _same(eng, e["path"], outp):
+                return Conc(False)
+        else:
+            return Conc(False)
+    if sum(1 for k, _ in calls if k.endswith("FileAnonymizer.anonymize_io")) > 1:
+        return Conc(False)
+    import z3 as _z3
+    from pyvc.lib import uf, S
+    for k, e in calls:
+        if k == "os.makedirs":
+            want = uf("os_dirname_1", S, S)(eng.term(outp, STR))
+            if not eng.term(e["path"], STR).eq(want):
+                return Conc(False)
+    return Conc(True)
+
+
+SPEC_BUILTINS["FileIterationOK"] = _sp_file_iteration_ok
+
+
+def _sp_opens_only(eng, args, kw, n):
+    """OpensOnly('dumpfile'): the trace since the per-file loop opens nothing but the named path, for writing, once"""
+    opens = [e for k, e in eng.st.calls if k == "open"]
+    if len(opens) > 1:
+        return Conc(False)
+    for e in opens:
+        if not (isinstance(e["mode"], Conc) and e["mode"].v == "w" and _same(eng, e["path"], eng.st.vars[args[0].v])):
+            return Conc(False)
+    return Conc(True)
+
+
+SPEC_BUILTINS["OpensOnly"] = _sp_opens_only
+R.contracts[M + "FileAnonymizer.anonymize_io"].record = True
+FA_OK = ["implies(file_anonymizer.anonymizer4 is not None, WF(file_anonymizer.anonymizer4) and file_anonymizer.anonymizer4.length == 32)",
+         "implies(file_anonymizer.anonymizer6 is not None, WF(file_anonymizer.anonymizer6) and file_anonymizer.anonymizer6.length == 128)",
+         "implies(file_anonymizer.anonymizer_as_num is not None, AsOK(file_anonymizer.anonymizer_as_num))",
+         "implies(file_anonymizer.anonymizer_sensitive_word is not None, MemoOK(file_anonymizer.anonymizer_sensitive_word))"]
+
+R.contract(M + "anonymize_files@impl",
+           types={"input_path": STR, "output_path": STR, "anon_pwd": BOOL, "anon_ip": BOOL, "salt": Opt(STR),
+                  "dumpfile": Opt(STR), "sensitive_words": Opt(LS), "undo_ip_anon": BOOL, "as_numbers": Opt(LS),
+                  "reserved_words": Opt(LS), "preserve_prefixes": Opt(LS), "preserve_networks": Opt(LS),
+                  "preserve_suffix_v4": Opt(INT), "preserve_suffix_v6": Opt(INT)},
+           returns=NONE,
+           requires=["implies(preserve_suffix_v4 is not None, 0 <= preserve_suffix_v4 and preserve_suffix_v4 <= 32)",
+                     "implies(preserve_suffix_v6 is not None, 0 <= preserve_suffix_v6 and preserve_suffix_v6 <= 128)",
+                     "implies(preserve_prefixes is not None, all(ValidNet4(p) for p in preserve_prefixes))",
+                     "implies(preserve_networks is not None, all(ValidNet4(p) for p in preserve_networks))",
+                     "implies(as_numbers is not None, all(IsNumeral(n) and int(n) <= 4294967295 for n in as_numbers))",
+                     # the map can only be dumped when the IP anonymizers exist (main enforces this)
+                     "implies(dumpfile is not None, anon_ip or undo_ip_anon)"],
+           modifies=["log"],
+           # unusable input/output combinations are rejected before anything is opened
+           # ... and the only other failure is the map file not being writable, after all files were processed:
+           # a file that cannot be processed never makes the run fail
+           raises={"ValueError": None, "OSError": None},
+           raises_ensures=["implies(raised('ValueError'), ncalls('open') == 0)",
+                           "implies(raised('OSError'), dumpfile is not None and OpensOnly('dumpfile'))"],
+           ensures=["OpensOnly('dumpfile')", "implies(dumpfile is None, ncalls('open') == 0)"],
+           loops={0: LoopContract(["dirs", "files", "root"], index="_i0", cell_types={"file_list": Opq("Pair")},
+                                  invariant=["all(PairOK(p, input_path, output_path) for p in file_list)"]),
+                  1: LoopContract(["in_path", "out_path"], index="_i1",
+                                  heap_modifies=["file_anonymizer.pwd_lookup", "file_anonymizer.anonymizer4.cache",
+                                                 "file_anonymizer.anonymizer6.cache",
+                                                 "file_anonymizer.anonymizer_sensitive_word.sens_word_replacements"],
+                                  invariant=FA_OK + ["all(PairOK(p, input_path, output_path) for p in file_list)",
+                                                     "FileIterationOK('in_path', 'out_path')"])})
